@@ -169,7 +169,7 @@ def run(ctx):
                     # reserve writer table (R01.2): AddToAmm -> tps + base, RemoveFromAmm -> tps - base
                     delta.setdefault((variant, dirv), set()).add("+" if eff == "AddToAmm" else "-")
             # emitted attributes
-            for v in sym.walk(q.ret):
+            for v in sym.walk(ix.inline(q.ret)):
                 if tag(v) == "tuple" and len(kids(v)) == 2 and tag(kids(v)[0]) == "const":
                     key = payload(kids(v)[0])[1].strip('"')
                     val = kids(v)[1]
